@@ -1,5 +1,6 @@
 # C12 -- polynomial division: u = q*v + r, deg r < deg v, for every divisor with a nonzero leading coefficient;
 #        zero divisors are an error; the routine never panics or spins.
+import math
 from fractions import Fraction
 from common import *
 from engine import Case
@@ -15,6 +16,13 @@ RULE = ("poly.div cases for every dividend length 0..11 (empty, degree 0..10) x 
         "reciprocal that does not round-trip (49, 98, 103, ...: computed, 1/d*d != 1); general f64 with coefficient ratios up to 1e6; Complex<f64>; "
         "structured dividends u = q0*v + r0 with zero interior quotient coefficients and sparse binomial operands (multi-degree drops of the remainder); "
         "all-zero and empty divisors; divisors with a zero leading coefficient (outside the claim: tie only; floats must still terminate); "
+        "special STRUCTURE: div-self-* (kind poly.divself: u.polydiv(&u), dividend and divisor the SAME object, u empty / all-zero of either sign / constant / random / structured; every "
+        "poly.div case also runs u.polydiv(&u) and v.polydiv(&v) against the cloned-operand form inside the executor), div-related-* (u = v by value, -v, c*v, x^k*v, v*v, v reversed, one "
+        "coefficient different), div-special-lead-* (leading coefficient of the divisor 1 -1 2 1/2 -2 -1/2 3, also among general inexact f64 coefficients; Complex: +-k, +-ki, +-i, 1+-i, with "
+        "the dividend's leading coefficient from the same menu half of the time), zero-divisor-signed-* / zero-divisor-equal-rat (all-zero divisors of lengths 1..7 with zeros of either sign, "
+        "[-0.0] included; dividend empty / all-zero / random / equal to the divisor by value), div-rotated-cplx (exact Gaussian-integer divisions and real ones turned by powers of i: both "
+        "operands on the imaginary axis, one on each axis, ...), div-struct-* (dividend all-zero, with two or more vanishing leading coefficients, one-term, negative zeros; divisor c*x^k, all ones, "
+        "alternating, zero interior, special menu); rotating with the seed in the quick tier; "
         "distinct = distinct executor line; non-trivial = the long-division loop runs at least once (len u >= len v, valid divisor)")
 TRUSTED = ["Coq 8.16.1 kernel + vm_compute (primitive floats bit-exact)", "Rust executor /verif/harness (Rat = i128 rationals; k_poly.rs uses the public Polynomial API only)",
            "python driver: generators, exact recomputation of u - (q*v + r) in Fraction / Gaussian rationals (driver/polylib.py), stream comparators",
@@ -34,7 +42,8 @@ MANIFEST = dict(
           "error value (exactly the empty / all-zero divisors) or Ok; over any field u = q*v + r coefficientwise, and this together with the "
           "degree condition determines q and r (uniqueness); "
           "The pre-repair loop is refuted in Coq on the float instance (x / 49x runs into the cap). The same Gallina function is run against the "
-          "implementation (Rat vs Qc exact; f64/Complex bitwise, outcome compared exactly) on all dividend degrees 0..10 x divisor degrees 0..6, and "
+          "implementation (Rat vs Qc exact; f64/Complex bitwise, outcome compared exactly) on all dividend degrees 0..10 x divisor degrees 0..6, on dividends related to the divisor "
+          "(equal, negated, scaled, shifted, squared; the same object: u.polydiv(&u)), special leading coefficients, signed-zero divisors and exact Complex divisions off the real axis, and "
           "an exact recomputation of u - (q*v + r) searches for a failing input (exact over Rat, <= 1e-10*scale over floats)."),
     note="The size of the floating-point residual is a theorem in the standard rounding model and at binary64 absent overflow/underflow, and searched on the implementation; the exact-arithmetic identity and float termination are theorems.",
     technique="Coq proof (any arithmetic / any field) + legacy refutation by vm_compute on primitive floats + differential execution + exact residual search",
@@ -152,20 +161,161 @@ def generate(rng, tier):
             v[-1] = Fraction(g.choice([1, -1, 2])); v[g.below(lv - 1)] = Fraction(g.choice([1, -1, 2, -2, 3]))
             cases.append(mk_div(fam, [conv_to(fam, a) for a in u], [conv_to(fam, a) for a in v],
                                 "div-sparse-" + fam, nontrivial=(lu >= lv)))
+    cases += special_structure_cases(rng, tier)
     return rng.fork("order").shuffle(cases)          # balanced coqc shards
 
+def nz_special(fam):
+    return [v for v in special_scalars(ELT[fam]) if v != 0]
+
+def valid_divisor(g, fam, lv, lead=None):
+    v = [gen_val(g, fam) for _ in range(lv)]
+    if lv: v[-1] = gen_lead(g, fam) if lead is None else lead
+    return v
+
+def imul(elt, p, k):
+    """p * i^k, exactly (a permutation of the components with signs)"""
+    if elt != 'cplx': return list(p)
+    w = [complex(1, 0), complex(0, 1), complex(-1, 0), complex(0, -1)][k % 4]
+    return [complex(a) * w for a in p]
+
+def special_structure_cases(rng, tier):
+    """Operands with special STRUCTURE (the families above draw dividend and divisor independently of one another):
+      div-self-<fam>          u.polydiv(&u): dividend and divisor the SAME object (kind poly.divself; twin run_div u u), u
+                              empty, all-zero (either sign of zero), constant, random, structured; every poly.div case also
+                              runs u.polydiv(&u) and v.polydiv(&v) against the cloned-operand form inside the executor
+      div-related-<fam>       u in a relation to v: equal values, -v, c*v, x^k*v, v*v, v reversed, one coefficient different
+      div-special-lead-<fam>  leading coefficient of the divisor 1, -1, 2, 1/2, -2, -1/2 (also among general inexact f64
+                              coefficients, where the random families never have a monic divisor); Complex: on the axes
+                              +-k, +-ki, +-i, 1+-i
+      zero-divisor-signed-<fam>  all-zero divisors of every length 1..7 with zeros of either sign (Complex: per component),
+                              [-0.0] included; dividends empty / all-zero / random
+      div-rotated-cplx        exact Gaussian-integer divisions u = q0*v + r0, and real ones with u*i^a, v*i^b: purely imaginary
+                              and mixed operands with every intermediate exact
+      div-struct-<fam>        dividend all-zero of length >= len v, with two or more vanishing leading coefficients, one-term,
+                              with zeros of either sign; divisor one-term c*x^k (k >= 1), all ones, alternating signs, zero
+                              interior, from the special menu"""
+    cases = []
+    thorough = tier == "thorough"
+    fams = ('rat', 'f64int', 'f64gen', 'cplx')
+    for fam in fams:
+        elt = ELT[fam]
+        z = zero_val(fam)
+        # ---- same object
+        g = rng.fork("self-" + fam)
+        us = [[], [z], [z, z, z], [gen_lead(g, fam)], [z, gen_lead(g, fam)]]
+        if elt != 'rat': us += [struct_poly(g, elt, g.range(1, 4), "neg-zeros")[:-1] + [-0.0 if elt == 'f64' else complex(-0.0, 0.0)], [-0.0 if elt == 'f64' else complex(0.0, -0.0)]]
+        for lu in (range(2, 8) if thorough else [g.range(2, 4), g.range(5, 7)]):
+            us.append(valid_divisor(g, fam, lu))
+        us.append(struct_poly(g, elt, g.range(2, 5), g.choice(["monomial", "all-ones", "alternating", "interior-zeros", "lead-zeros"])))
+        for u in us:
+            cases.append(mk_case(elt, "divself", [u], "div-self-" + fam, nontrivial=bool(u) and any(a != 0 for a in u), tol=1e-9))
+        # ---- related operands
+        g = rng.fork("related-" + fam)
+        exact_fam = fam != 'f64gen'
+        rels = ["equal", "negated", "shifted", "scaled", "reversed", "one-differs", "square"]
+        for k, rel in enumerate(rels):
+            for lv in (range(1, 7) if thorough else [g.range(1, 3), g.range(4, 6)][(k % 2):(k % 2) + 1] + ([g.range(2, 5)] if rel in ("equal", "scaled") else [])):
+                v = valid_divisor(g, fam, lv)
+                if rel == "square":
+                    if not exact_fam: continue
+                    v = [conv(elt, small_int(g, -4, 4)) for _ in range(lv)]; v[-1] = conv(elt, g.choice([1, -1, 2, 3]))
+                    E = [exact(elt, a) for a in v]; sq = ref_mul(E, E, zero_of(elt))
+                    u = [conv(elt, a) if elt != 'cplx' else complex(float(a.re), float(a.im)) for a in sq]
+                elif rel == "scaled":
+                    c = 2.0 if not exact_fam else g.choice([a for a in nz_special(fam) if a != 1])
+                    if exact_fam and fam != 'rat':      # keep the product exact: small integer divisor
+                        v = [conv(elt, small_int(g, -6, 6)) for _ in range(lv)]; v[-1] = conv(elt, g.choice([1, -1, 3, 7, 49]))
+                    u = [scal_mul(elt, a, c) for a in v]
+                elif rel == "one-differs":
+                    u = list(v); j = g.below(lv); u[j] = u[j] + conv(elt, 1)
+                elif rel == "reversed":
+                    u = list(reversed(v))
+                    if u[-1] == 0: u[-1] = conv(elt, 1)
+                else:
+                    u = related_poly(g, elt, v, rel)
+                cases.append(mk_div(fam, u, v, "div-related-%s-%s" % (rel, fam), nontrivial=True))
+        # ---- special leading coefficients of the divisor
+        g = rng.fork("lead-" + fam)
+        menu = nz_special(fam)
+        for k, lead in enumerate(menu):
+            if not thorough and elt != 'cplx' and (k + g.below(2)) % 2: continue
+            for rep in range(3 if thorough else 1):
+                lv = g.range(1, 5); lu = lv + g.range(0, 5)
+                u = [gen_val(g, fam) for _ in range(lu)]
+                if u[-1] == 0: u[-1] = gen_lead(g, fam)
+                if rep % 2 == 0 and g.chance(1, 2): u[-1] = g.choice(menu)     # both leading coefficients special (Complex: both on an axis)
+                cases.append(mk_div(fam, u, valid_divisor(g, fam, lv, lead), "div-special-lead-" + fam, nontrivial=True))
+        # ---- zero divisors with zeros of either sign
+        if elt != 'rat':
+            g = rng.fork("zero-signed-" + fam)
+            def sz():
+                if elt == 'f64': return g.choice([0.0, -0.0])
+                return complex(g.choice([0.0, -0.0]), g.choice([0.0, -0.0]))
+            for lv in (range(1, 8) if thorough else [1, g.range(2, 4), g.range(5, 7)]):
+                v = [sz() for _ in range(lv)]
+                if all(math.copysign(1.0, complex(a).real) > 0 and math.copysign(1.0, complex(a).imag) >= 0 for a in v):
+                    v[-1] = -0.0 if elt == 'f64' else complex(-0.0, 0.0)
+                u = g.choice([[], [z] * g.range(1, 3), [gen_val(g, fam) for _ in range(g.range(1, 6))]])
+                cases.append(mk_div(fam, u, v, "zero-divisor-signed-" + fam, nontrivial=True))
+                if lv <= 4:    # dividend and divisor equal BY VALUE (as numbers: zeros of the other sign), both all-zero
+                    cases.append(mk_div(fam, [z] * lv, v, "zero-divisor-signed-" + fam, nontrivial=True))
+            # (outside the claim, tie only) a negative zero as leading coefficient of a non-zero divisor
+            v = valid_divisor(g, fam, g.range(2, 4)); v[-1] = -0.0 if elt == 'f64' else complex(-0.0, 0.0)
+            if all(a == 0 for a in v): v[0] = gen_lead(g, fam)
+            cases.append(mk_div(fam, [gen_val(g, fam) for _ in range(g.range(2, 6))], v, "zero-leading-" + fam, nontrivial=False))
+        else:
+            for lv in (1, 2, 3):
+                cases.append(mk_div(fam, [z] * lv, [z] * lv, "zero-divisor-equal-" + fam, nontrivial=True))
+        # ---- structured dividends / divisors
+        g = rng.fork("struct-" + fam)
+        for cls in ("all-zero", "lead-zeros", "monomial", "neg-zeros", "all-equal"):
+            if elt == 'rat' and cls == "neg-zeros": continue
+            lv = g.range(1, 4)
+            u = struct_poly(g, elt, lv + g.range(0, 4) + (2 if cls == "lead-zeros" else 0), cls)
+            cases.append(mk_div(fam, u, valid_divisor(g, fam, lv), "div-struct-u-%s-%s" % (cls, fam), nontrivial=any(a != 0 for a in u)))
+        for cls in ("monomial", "all-ones", "alternating", "interior-zeros", "axis", "all-equal"):
+            lv = g.range(2, 5)
+            v = struct_poly(g, elt, lv, cls)
+            if v[-1] == 0: v[-1] = conv(elt, 1)
+            lu = lv + g.range(0, 5)
+            u = [gen_val(g, fam) for _ in range(lu)]
+            if u[-1] == 0: u[-1] = gen_lead(g, fam)
+            cases.append(mk_div(fam, u, v, "div-struct-v-%s-%s" % (cls, fam), nontrivial=True))
+    # ---- exact Complex divisions off the real axis
+    g = rng.fork("rotated")
+    gi = lambda lo, hi, pz: complex(float(small_int(g, lo, hi, pz)), float(small_int(g, lo, hi, pz)))
+    for k in range(48 if thorough else 14):
+        lq, lv = g.range(1, 4), g.range(1, 4)
+        if k % 2 == 0:        # a real division, dividend and divisor turned by powers of i
+            q0 = [complex(float(small_int(g, -5, 5, (1, 3))), 0.0) for _ in range(lq)]; q0[-1] = complex(float(g.choice([1, -1, 2, 3])), 0.0)
+            v = [complex(float(small_int(g, -4, 4, (1, 3))), 0.0) for _ in range(lv)]; v[-1] = complex(float(g.choice([1, -1, 2, -3, 5])), 0.0)
+            r0 = [complex(float(small_int(g, -6, 6, (1, 3))), 0.0) for _ in range(g.range(0, lv - 1))]
+        else:                 # Gaussian integers throughout; the leading coefficient of the divisor a unit or on an axis (exact quotients)
+            q0 = [gi(-3, 3, (1, 3)) for _ in range(lq)]; q0[-1] = g.choice([complex(1, 1), complex(0, 2), complex(-1, 0), complex(2, -1)])
+            v = [gi(-3, 3, (1, 3)) for _ in range(lv)]; v[-1] = g.choice([complex(0, 1), complex(0, -1), complex(-1, 0), complex(0, 2), complex(0, -4), complex(2, 0)])
+            r0 = [gi(-4, 4, (1, 3)) for _ in range(g.range(0, lv - 1))]
+        E = lambda p: [exact('cplx', a) for a in p]
+        U = ref_add(ref_mul(E(q0), E(v), zero_of('cplx')), E(r0))
+        u = [complex(float(a.re), float(a.im)) for a in (cq(b) for b in U)]
+        # turns (a, b) of dividend and divisor: both on the imaginary axis, one on each axis, ... first, then at random
+        turns = [(1, 1), (0, 1), (1, 0), (3, 1), (2, 3), (3, 3), (1, 2)]
+        a, b = ((turns[k // 2] if k // 2 < len(turns) else (g.below(4), g.below(4))) if k % 2 == 0 else (0, 0))
+        cases.append(mk_div('cplx', imul('cplx', u, a), imul('cplx', v, b), "div-rotated-cplx", nontrivial=True))
+    return cases
+
 def case_from_json(j):
-    return case_from_json_common(j, ("div",))
+    return case_from_json_common(j, ("div", "divself"))
 
 # ------------------------------------------------------------------ oracle
 def oracle(case, items):
-    kind, (u, v) = case_vals(case)
+    kind, uv = case_vals(case)
+    u, v = (uv[0], uv[0]) if kind == "divself" else uv         # poly.divself: u.polydiv(&u)
     elt = case.elt
     U, V = [exact(elt, a) for a in u], [exact(elt, a) for a in v]
     z = zero_of(elt)
     zero_div = (len(V) == 0) or all(a == 0 for a in V)
     lead_zero = (not zero_div) and V[-1] == 0
-    who = "polydiv on %s, u=%s, v=%s: " % (elt, [str(a) for a in U], [str(a) for a in V])
+    who = "polydiv on %s, u=%s, v=%s%s: " % (elt, [str(a) for a in U], [str(a) for a in V], " (u.polydiv(&u), the same object)" if kind == "divself" else "")
     if not items:
         return who + "empty answer"
     if items[-1][0] == 'P':
